@@ -13,6 +13,7 @@ OPS_ALL = ["create", "createKeyPair", "register", "deriveKey", "locate", "get", 
            "decrypt", "sign", "signatureVerify", "mac", "setAttribute", "modifyAttribute", "deleteAttribute"]
 VERSIONS = [10, 11, 12, 13, 14, 20]
 USERS = ["alice", "bob", "carol"]
+LONG_USER = "user-with-a-very-long-common-name-" + "0123456789" * 3        # 64 characters
 GROUPSETS = [None] * 14 + [[], ["g1"], ["g2"], ["g1", "g2"], ["g2", "g1"], ["g3"]]
 MASKS = [0, 0x1, 0x2, 0x3, 0x4, 0x8, 0xC, 0x10, 0x80, 0x200, 0x3FF, 0x3FF, 0xFFFFFF, 0xFFFFFF, 0xFFFFFF, 0xFFFFFF,
          0x3FF, 0xFFFFFF, 0x1000000, 0x20C, -1, -5, -0x201, 0x200000, 0x200001, 0x200080, 0x200000]
@@ -81,6 +82,12 @@ class Gen(object):
 
     def ident(self, req=None):
         user = self.ch(USERS + ["alice", "alice"])
+        if self.profile.get("long_users") and self.p(self.profile["long_users"]):
+            # identities at and beyond the width the storage declares for the owner column (a certificate common name
+            # may have 64 characters): a 60-character user and the user named by its first 50 characters
+            user = self.ch([LONG_USER, LONG_USER, LONG_USER[:50], LONG_USER[:51]])
+            gp = self.profile.get("groups")
+            return {"user": user, "groups": None if gp is None or not self.p(gp) else self.ch(GROUPSETS[14:])}
         if req is not None and self.p(0.75):
             for it in req["items"]:
                 u = it.get("uid") or (it.get("uids") or [None])[0]
@@ -330,7 +337,13 @@ class Gen(object):
             must = ("Cryptographic Length",) + (("Cryptographic Algorithm",) if ot == 2 or self.p(0.2) else ()) \
                 + (("Cryptographic Usage Mask",) if self.p(0.8) else ())
             t = self.template(must=must, alg=3, length=n * 8 if self.p(0.93) else self.ch([0, -8, -64, 12, -3]))
-            it.update(otype=ot, uids=[self.uid(False) for _ in range(self.ch([1, 1, 1, 2, 0]))], tmpl=t)
+            us = [self.uid(False) for _ in range(self.ch([1, 1, 1, 2, 0]))]
+            if self.dead and self.p(0.25):
+                # a destroyed identifier among the derivation objects, in any position
+                live_ok = [u for u in self.live if self.live[u].get("otype") in (2, 7)]
+                us = ([self.ch(live_ok)] if live_ok and self.p(0.7) else []) + [self.ch(self.dead)] + \
+                     ([self.ch(live_ok)] if live_ok and self.p(0.3) else [])
+            it.update(otype=ot, uids=us, tmpl=t)
             x = r.random()
             if x < 0.85:
                 it["crypto"] = {"k": "ok", "t": hexof(self.ch([n, n, 32, 8]), rnd=r)}
